@@ -3,8 +3,10 @@
 Bounded-exhaustive input enumeration of the REAL hailtop.batch_client.aioclient.Batch._create_bunches
 (called on a real, never-submitted Batch object; no server is involved: the method only serialises
 and packs).  Inputs: every list of <= G job-group specs and <= J job specs whose serialised sizes are
-drawn from four values (a padding attribute makes each spec BASE+1, +2, +3 or +5 bytes), every
-max_bunch_bytesize from 1 to (total bytes + 1) and every max_bunch_size in {1,2,3,4,8}.
+drawn, freely per position, from tiny / medium / large values (a padding attribute makes each spec 15, 33 or
+70 bytes; thorough adds 16), every max_bunch_bytesize from 1 to (total bytes + 1) and every max_bunch_size in
+{1,2,3,8} (thorough adds 4).  Heterogeneous sizes matter: stale-running-total mistakes only show when a small
+count-closed bunch is followed by large specs.
 
 Oracle (the statement, judged on the returned bunches only):
 * the bunches, concatenated, are exactly the job-group specs in order followed by the job specs in
